@@ -274,9 +274,12 @@ class Executor(ResolutionContext):
         info: ResolveInfo,
         resolved_value: Any,
     ) -> Any:
+        # Evaluate lazy iterables first: if iterating fails, no item has been
+        # started yet and nothing is left running behind the failed field.
+        entries = list(resolved_value)
         return self.runtime.gather_values(
             self.complete_value(inner_type, nodes, path + [index], info, entry)
-            for index, entry in enumerate(resolved_value)
+            for index, entry in enumerate(entries)
         )
 
     def complete_non_nullable_value(
